@@ -308,3 +308,19 @@ def r16(rr, repo):
                     same = inner is not None and len(inner.elts) == len(fields) and U(inner.elts[ti]) == arg.id
                 rr.ob('marking a frame as sent leaves the time of the last request as it was', same, za.mod, c, witness=f'{fields[ti]} := {U(arg)}', key='t_last-kept-on-send')
     rr.floor('constructions of a client entry in send()', k, 2, za.mod, za.S_send)
+
+
+@rule('C06.R17', "a restarted publisher stays reachable: the instance that shuts down removes an ipc socket file only if it still is the file it bound itself - a successor started on the same address before the old "
+                 "instance has finished (SIGTERM and an immediate restart) has replaced the files, removing them by NAME cuts every consumer off from the new instance for good")
+def r17(rr, repo):
+    za = anchors(repo)
+    unlinks = [c for c in q.calls_in(za.S_destroy) if U(c.func) in ('os.unlink', 'os.remove')]
+    rr.floor('removals of ipc socket files in ZMQSender.destroy', len(unlinks), 1, za.mod, za.S_destroy)
+    for c in unlinks:
+        g = q.effective_guards(c, za.S_destroy)
+        ident = [t for t, p in g if p and ('st_ino' in t or 'samefile' in t or 'st_dev' in t)]
+        rr.ob('a socket file is removed only after it was identified as the one this instance bound (inode noted at bind)', bool(ident), za.mod, c, witness=(ident[0] if ident else str(g))[:140], key='ipc-unlink-own-file-only')
+    if unlinks:
+        noted = [n for n in ast.walk(za.S_init) if isinstance(n, ast.Assign) and 'st_ino' in U(n.value)]
+        rr.ob('the identity of the socket files is noted when they are bound', bool(noted) and any(n.lineno > min(c.lineno for c in q.calls_in(za.S_init) if 'bind' in U(c)) for n in noted), za.mod,
+              noted[0] if noted else za.S_init, witness=U(noted[0])[:80] if noted else 'nothing in __init__ reads st_ino', key='ipc-identity-noted-at-bind')
